@@ -43,6 +43,9 @@ struct in_s nondet_in(void);
 
 #ifdef SK_LEN
 static const uint8_t SK[SK_LEN] = { SK_BYTES };
+#ifdef SK_MASK
+static const uint8_t SKM[SK_LEN] = { SK_MASK };
+#endif
 #endif
 
 #ifdef NATIVE_REPLAY
@@ -58,7 +61,11 @@ void harness(void)
     EXACT_BYTES(buf, NB);
     for (size_t i = 0; i < NB; i++) buf[i] = IN.buf[i];
 #ifdef SK_LEN
+#ifdef SK_MASK
+    for (size_t i = 0; i < SK_LEN; i++) { if (SKM[i]) buf[i] = SK[i]; }
+#else
     for (size_t i = 0; i < SK_LEN; i++) buf[i] = SK[i];
+#endif
 #ifdef SK_LAST
     buf[NB - 1] = SK_LAST;
 #endif
